@@ -32,7 +32,7 @@ def generate(ctx):
     n = ctx.budget(14000, 2400000)
     for _ in range(n):
         cfg = gen.gen_cfg(ctx.rng, kappas=(1e-12, 1e-9, 1e-6, 1e-4, 1e-4, 1e-3, 1e-2, 1e-2))
-        regime = ctx.rng.choice(["round_numbers", "corners", "corners", "mismatch", "wide", "tiny_sigma", "huge_sigma", "typical",
+        regime = ctx.rng.choice(["round_numbers", "coincidences", "corners", "corners", "mismatch", "wide", "tiny_sigma", "huge_sigma", "typical",
                                  "identical", "equal_size"])
         case, meta = gen.gen_case(ctx.rng, regime=regime, cfg=cfg, pmax=16)
         beta = cfg["beta"]
